@@ -204,6 +204,13 @@ def run_scenario(conf: S.Conf, writes, rng, thorough, stride=1, attacks=None):
                 rc, rb, rr = rconf.setup()
                 if rsec == conf.secret:
                     await rc.set_raw(NEIGHBOUR, nb_blob)
+                    # warm the reader: it has already read every legitimate entry successfully before it meets an
+                    # attacked blob (a signer that remembers what it verified must not let that widen what it accepts)
+                    for wk, wblob in legit.items():
+                        await rc.set_raw(wk, wblob)
+                        await S.read(rc.get(wk, default=S.SENT))
+                        await S.read(rc.get_many(wk, NEIGHBOUR, default=S.SENT))
+                        await rc.delete(wk)
                 readers[rsec] = (rconf, rc, rr)
             rconf, rc, rr = readers[rsec]
             await rc.set_raw(rkey, blob2)
